@@ -104,6 +104,23 @@ private def newWriter : Field :=
 example : newWriter.justified = false := by decide +kernel
 example : ({ newWriter with stray := [] } : Field).justified = true := by decide +kernel
 
+/-- derived state reset on the load path (C18-i22: `add` calls `ClearEntryCache` when a bare name
+changes hands; `Parse` withdraws the registrations of a refused text but not the dropped cache) -/
+private def resetOnLoadPath : Field :=
+  { owner := "Modules", name := "entryCache", type := "map[Node]*Entry", exported := false, allow := .derived,
+    reset := .full, reads := 1, writers := ["Modules.ClearEntryCache", "Modules.setEntryCache"],
+    pinned := ["Modules.setEntryCache"], stray := ["Modules.add -> Modules.ClearEntryCache"] }
+
+example : resetOnLoadPath.justified = false := by decide +kernel
+
+/-- an element-wise reset that does not range over every module container (the tree before the D66
+repair: the unlink loop of Process skipped `ms.unrevisioned`) is classified `partly` -/
+private def partialUnlink : Field :=
+  { owner := "Include", name := "Module", type := "*Module", exported := true, allow := .derived,
+    reset := .partly, reads := 16, writers := ["Modules.Process", "Modules.include"], pinned := ["Modules.include"] }
+
+example : partialUnlink.justified = false := by decide +kernel
+
 /-- an informational field that nothing in the package reads needs no entry -/
 private def infoField : Field :=
   { owner := "Modules", name := "loads", type := "int", exported := false, allow := .unknown, reset := .absent, reads := 0,
